@@ -125,6 +125,27 @@ Theorem c15_number_by_value : forall a b k, (k <= d_e a)%Z -> (k <= d_e b)%Z ->
 Proof. exact dec_compare_spec. Qed.
 Print Assumptions c15_number_by_value.
 
+(* The model's decimals are exact integers and cost nothing; Go's Decimal.Cmp rescales with big.Int at a cost of
+   10^|exponent difference|.  What keeps evaluation feasible is the validator: a number condition it admits carries a
+   literal whose exponent lies within +-1000 (ValueAsNumber's bound; before that repair `tickets > 1e300000000`
+   was admitted and EvaluateQuery did not return). *)
+Theorem c15_number_literal_bounded : forall e r pt key o v,
+  validate_cond e r pt key o v = None -> resolve_value_type r pt key = Some FNumber ->
+  ((is_eq o || is_ne o) && is_nil v = false) ->
+  exists d, value_number v = Some d /\ value_as_number v = d
+            /\ (- max_number_value_exponent <= d_e d <= max_number_value_exponent)%Z.
+Proof. exact validated_number_bounded. Qed.
+Print Assumptions c15_number_literal_bounded.
+
+Example c15_huge_exponent_rejected :
+  let e := {| e_lower := fun c => c; e_tokens := fun _ => []; e_day_start := fun _ => None;
+              e_valid_lang := fun _ => true |} in
+  let r := {| r_field := fun _ => None; r_group := fun _ => false; r_flow := fun _ => false |} in
+  validate_cond e r PAttr k_tickets OpGt [49; 101; 51; 48; 48; 48; 48; 48; 48; 48; 48]%N = Some EInvalidNumber
+  /\ validate_cond e r PAttr k_tickets OpGt [49; 101; 49; 48; 48; 48]%N = None.
+Proof. exact huge_exponent_rejected. Qed.
+Print Assumptions c15_huge_exponent_rejected.
+
 (* -- dates -------------------------------------------------------------------------------------------- *)
 
 Theorem c15_date_relations : forall e r c pt key v,
